@@ -171,13 +171,13 @@ func addTextCase(c *core.Ctx, fn string, in []byte) {
 		return
 	}
 	tc := &textCase{Kind: "text", Fn: fn, In: in}
-	res, fails := runText(tc)
+	res, fails, ok := pText(tc)
 	c.OracleCheck()
 	for _, f := range fails {
 		c.OracleFail(f.key, f.desc, tc)
 	}
 	c.Count("text-" + fn)
-	if len(fails) > 0 {
+	if len(fails) > 0 || !ok {
 		return
 	}
 	switch fn {
